@@ -94,6 +94,72 @@ def build():
         R.add(f"own-copy[{cls.__name__}]", kind="bounded", bounded_only=True, samples=12,
               note="12 sampled field valuations x {bytes, bytearray, writable memoryview}")(own_copy(cls, deser, names))
 
+    def again(cls, deser, argnames):
+        """deserialising is a function of the bytes: the same bytes give a NEW message with the values in the bytes, whatever was done to a message
+        obtained from them before; and serialising is a function of the message's current fields"""
+        def f(ctx):
+            args = {a: ctx.int(a, *_range(cls, a)) for a in argnames}
+            other = {a: ctx.int(a + "'", *_range(cls, a)) for a in argnames}
+            m = cls(**args)
+            raw = bytes(m)
+            m1 = deser(raw)
+            for a in argnames:
+                setattr(m1, a, other[a])            # the receiver changes the message it got
+            m2 = deser(bytes(raw))
+            ctx.check("identical bytes delivered again give the values in the bytes", all(getattr(m2, a) == args[a] for a in argnames) and m2 is not m1)
+            for a in argnames:
+                setattr(m, a, other[a])             # the sender re-uses its message object with new field values
+            m3 = deser(bytes(m))
+            ctx.check("a message object serialised again after its fields changed carries the current fields", all(getattr(m3, a) == other[a] for a in argnames))
+        return f
+    for cls, deser, names in ((MSG.InitNewAppMessage, host, ["app_id", "max_qubits"]), (MSG.StopAppMessage, host, ["app_id"]), (MSG.MsgDoneMessage, ret, ["msg_id"]),
+                              (MSG.OpenEPRSocketMessage, host, ["app_id", "epr_socket_id", "remote_node_id", "remote_epr_socket_id", "min_fidelity"])):
+        R.add(f"again[{cls.__name__}]", kind="bounded", bounded_only=True, samples=20,
+              note="20 sampled pairs of field valuations; native (object identity and in-place updates of real ctypes structures)")(again(cls, deser, names))
+
+    def again_array(ctx):
+        n = ctx.choice("length", [1, 2, 3, 5])
+        rnd = lambda t: (None if ctx.choice(t + "!none", [False, True]) else ctx.int(t, -2 ** 31, 2 ** 31 - 1))
+        vals = [rnd(f"v{k}") for k in range(n)]
+        m = MSG.ReturnArrayMessage(7, list(vals))
+        first = ret(bytes(m))
+        ctx.check("first serialisation", list(first.values) == vals and len(bytes(m)) == len(m))
+        i = ctx.choice("entry changed in place", list(range(n)))
+        new = rnd("new")
+        how = ctx.choice("update", ["entry assigned", "entry undefined", "entry appended", "values replaced"])
+        cur = list(vals)
+        if how == "entry assigned":
+            m.values[i] = new
+            cur[i] = new
+        elif how == "entry undefined":
+            m.values[i] = None
+            cur[i] = None
+        elif how == "entry appended":
+            try:
+                m.values.append(new)
+                cur.append(new)
+            except AttributeError:
+                pass                                 # values kept in an immutable sequence: nothing to update in place
+        else:
+            cur = [new] + cur[1:]
+            m.values = list(cur)
+        second = ret(bytes(m))
+        ctx.check("serialised again after an in-place update: the bytes carry the CURRENT entries", list(second.values) == list(m.values) and len(bytes(m)) == len(m))
+        if list(m.values) == cur:
+            ctx.check("the update took effect", list(second.values) == cur)
+    R.add("again[ReturnArrayMessage updated in place]", kind="bounded", bounded_only=True, samples=60,
+          note="60 sampled (length, entries, update) cases; native")(again_array)
+
+    def again_subroutine(ctx):
+        payload = bytes(ctx.int(f"p{k}", 0, 255) for k in range(ctx.choice("length", [0, 1, 5, 14])))
+        lead = ctx.choice("leading byte", ["any", "the SUBROUTINE tag", "the tag twice"])
+        tag = bytes([MSG.MessageType.SUBROUTINE.value])
+        payload = {"any": b"", "the SUBROUTINE tag": tag, "the tag twice": tag + tag}[lead] + payload
+        m2 = host(bytes(MSG.SubroutineMessage(payload)))
+        ctx.check("payload-unchanged (also when it starts with the byte used as type tag)", bytes(m2.subroutine) == payload)
+    R.add("roundtrip[SubroutineMessage][payload starting with the type tag]", kind="bounded", bounded_only=True, samples=36,
+          note="36 sampled payloads; native")(again_subroutine)
+
     R.add("roundtrip[InitNewAppMessage]", samples=30)(simple(MSG.InitNewAppMessage, host, ["app_id", "max_qubits"]))
     R.add("roundtrip[OpenEPRSocketMessage]", samples=30)(simple(
         MSG.OpenEPRSocketMessage, host, ["app_id", "epr_socket_id", "remote_node_id", "remote_epr_socket_id", "min_fidelity"]))
